@@ -42,13 +42,14 @@ func HarnessC15Members() {
 	p := c15Provider()
 	procs := []*c15Proc{{id: 0}, {id: 1}, {id: 2}}
 	var model []int // registered processor ids, in order (DESIGN A.8)
-	var wantShutdown [3]int
+	var wantShutdown, regs [3]int
 	k := vndParam("K", 3)
 	for i := 0; i < k; i++ {
 		pi := vndChoice(3)
 		if vndChoice(2) == 0 {
 			p.RegisterSpanProcessor(procs[pi])
 			model = append(model, pi)
+			regs[pi]++
 		} else {
 			found := -1
 			for j := range model {
@@ -75,8 +76,12 @@ func HarnessC15Members() {
 	for i := range procs {
 		vndAssert(procs[i].started == want[i], "onstart-delivered-to-exactly-the-registered-processors")
 		vndAssert(procs[i].ended == want[i], "onend-delivered-to-exactly-the-registered-processors")
-		vndAssert(procs[i].shutdowns <= 1, "processor-shut-down-at-most-once")
-		if want[i] <= 1 && wantShutdown[i] == 1 && want[i] == 0 {
+		if regs[i] <= 1 {
+			// C15 states single shutdown for a processor "registered once"; each
+			// registration of a processor registered several times has its own life cycle
+			vndAssert(procs[i].shutdowns <= 1, "processor-shut-down-at-most-once")
+		}
+		if regs[i] <= 1 && wantShutdown[i] == 1 && want[i] == 0 {
 			vndAssert(procs[i].shutdowns == 1, "unregistered-processor-shut-down-exactly-once")
 		}
 		if wantShutdown[i] == 0 {
